@@ -117,7 +117,7 @@ func Spec_reverseCriteriaForEachAlternative(
 		newCriteria := a.Criteria.Spec_Copy()
 		for ic, c := range *criteriaToReverse {
 			currentValue := newCriteria.Spec_Fetch(c.criterion.Id)
-			newValue := c.valRange.Max - currentValue + c.valRange.Min
+			newValue := Spec_mirrorInRange(currentValue, c.valRange)
 			alternativesValues[ic][a.Id] = newValue
 			(*newCriteria)[c.criterion.Id] = newValue
 		}
@@ -130,4 +130,13 @@ func (p *PreferenceReversal) Spec_getCriterionValueRange(originalParams *model.D
 	allAlternatives := originalParams.Spec_AllAlternatives()
 	valRange := model.Spec_CriteriaValuesRange(&allAlternatives, referenceCriterion)
 	return valRange
+}
+
+// C16: max + min - value, measured from the nearer end of the range, so that the two ends are mapped exactly onto
+// each other (the range is preserved and a second reversal restores the end points)
+func Spec_mirrorInRange(value float64, valRange *utils.ValueRange) float64 {
+	if value-valRange.Min <= valRange.Max-value {
+		return valRange.Max - (value - valRange.Min)
+	}
+	return valRange.Min + (valRange.Max - value)
 }
